@@ -519,6 +519,8 @@ struct DriverOut {
     values: Option<Vec<f64>>,
     /// rendering of every recorded step of `solve_step_by_step` (the tableau before the pivot)
     steps: Option<Vec<String>>,
+    /// the tableau carried by the returned `OptimalTableau`
+    returned: Option<Tableau>,
 }
 
 fn run_driver(t: &mut Tableau, kind: Kind, limit: i64, prefer: &[usize]) -> DriverOut {
@@ -531,6 +533,7 @@ fn run_driver(t: &mut Tableau, kind: Kind, limit: i64, prefer: &[usize]) -> Driv
         optimal_value: None,
         values: None,
         steps: None,
+        returned: None,
     };
     match kind {
         Kind::Solve | Kind::Avoid => {
@@ -545,6 +548,7 @@ fn run_driver(t: &mut Tableau, kind: Kind, limit: i64, prefer: &[usize]) -> Driv
                     optimal_value: Some(o.optimal_value()),
                     values: Some(o.variables_values().clone()),
                     steps: None,
+                    returned: Some(o.tableau().clone()),
                 },
                 Err(e) => fail(e),
             }
@@ -555,6 +559,7 @@ fn run_driver(t: &mut Tableau, kind: Kind, limit: i64, prefer: &[usize]) -> Driv
                 optimal_value: Some(o.result().optimal_value()),
                 values: Some(o.result().variables_values().clone()),
                 steps: Some(o.steps().iter().map(|s| s.to_string()).collect()),
+                returned: Some(o.result().tableau().clone()),
             },
             Err(e) => fail(e),
         },
@@ -580,6 +585,7 @@ fn drive(
         optimal_value,
         values,
         steps,
+        returned,
     } = run_driver(t, kind, limit, prefer);
     // renderings of the states before each pivot, as a recorded step shows them
     let mut state_strings: Vec<String> = vec![before.to_string()];
@@ -659,6 +665,16 @@ fn drive(
     match term {
         Term::Finished => {
             check_finished(ctx, r, at);
+            // the tableau handed back inside the OptimalTableau is the method's answer: it
+            // must be the terminal dictionary (equivalent, canonical, feasible, optimal),
+            // not an earlier one
+            if let Some(rt) = &returned {
+                let before_violations = ctx.violations.len();
+                check_state(ctx, rt, r, &format!("{at}: tableau of the returned OptimalTableau"));
+                if ctx.violations.len() > before_violations {
+                    return term;
+                }
+            }
             if let Some(ov) = optimal_value {
                 let flip = if t.flip_result() { -1.0 } else { 1.0 };
                 let want = -r.value.to_f64() * flip + t.value_offset();
